@@ -122,4 +122,49 @@ example : leavesV [] (parseNode exDoc) =
      ([s "b", s "c"], .text none), ([s "a[1]"], .text (some (s "z")))] := by decide +kernel
 example : findall false (parseNode (.mk (s "r") none [] [])) (s "**") = .ok (some []) := by decide +kernel
 
+/-! ### `findfirst` and `in` -/
+
+/-- what `bool(findall(...))` is -/
+def nonEmpty : Option (List Hit) → Bool
+  | some (_ :: _) => true
+  | _ => false
+
+/-- **C18 (findfirst), full statement — not proved; differential only.**  `findfirst` is the
+first `findall` result (nothing when `findall` returns an empty list or `None`), for every
+expression in which no `**[filter]` step is directly followed by `..`.  Without that restriction
+the statement is false on the pinned code: `C18_findfirst_cex` (finding C18-d). -/
+def C18_findfirst_stmt : Prop :=
+  ∀ (root : XVal) (sought : List Str) (r : Option (List Hit)), filteredDeepUp sought = false →
+    findallL false root sought = .ok r → findfirstL root sought = .ok (firstOf r)
+
+/-- **C18 (in), full statement — not proved; differential only.**  `xp in doc` is true exactly
+when `findall(xp)` is a non-empty list (fix C18-a applied). -/
+def C18_in_iff_stmt : Prop :=
+  ∀ (root : XVal) (sought : List Str) (r : Option (List Hit)),
+    findallL false root sought = .ok r → containsL root sought = .ok (nonEmpty r)
+
+/-- `<r><a><b/><b/></a><a/></r>` -/
+def cexDoc : Elem :=
+  .mk (s "r") none [] [
+    .mk (s "a") none [] [.mk (s "b") none [] [], .mk (s "b") none [] []],
+    .mk (s "a") none [] []]
+
+/-- **finding C18-d.**  With `**[1]/..` on `<r><a><b/><b/></a><a/></r>` `findall` reports the
+root (path `[]`) as its only and first result, but `findfirst` reports the first `<a>`:
+`findfirst` is not the first `findall` result. -/
+theorem C18_findfirst_cex :
+    findallL false (parseNode cexDoc) [s "**[1]", s ".."] = .ok (some [([], parseNode cexDoc)]) ∧
+    findfirstL (parseNode cexDoc) [s "**[1]", s ".."]
+      = .ok (some ([s "a[0]"], .nodes [(s "b", [], .text none), (s "b", [], .text none)])) ∧
+    filteredDeepUp [s "**[1]", s ".."] = true := by decide +kernel
+
+/-- `in` and `findall` still agree on that witness -/
+example : containsL (parseNode cexDoc) [s "**[1]", s ".."] = .ok true := by decide +kernel
+example : containsL (parseNode exDoc) [s "b", s "zz"] = .ok false ∧
+    findallL false (parseNode exDoc) [s "b", s "zz"] = .ok (some []) := by decide +kernel
+example : containsL (parseNode exDoc) [s "..", s "a"] = .ok false ∧
+    findallL false (parseNode exDoc) [s "..", s "a"] = .ok none := by decide +kernel
+example : findfirstL (parseNode exDoc) [s "**", s "a"] = .ok (some ([s "b", s "a"], .text (some (s "1")))) ∧
+    filteredDeepUp [s "**", s "a"] = false := by decide +kernel
+
 end N0.C18
